@@ -17,6 +17,9 @@ mkdir -p "$VERIF_DIR/bin" "$VERIF_DIR/evidence" "$VERIF_DIR/replays"
   cd "$VERIF_DIR/sim" || exit 2
   cmp -s /repo/go.sum go.sum.repo 2>/dev/null || { cp /repo/go.sum go.sum.repo; cat go.sum.repo go.sum 2>/dev/null | sort -u > go.sum.new && mv go.sum.new go.sum; }
   $GO test -c -vet=off -tags verif -o "$VERIF_DIR/bin/vcheck.new" ./cmd/vcheck || exit 2
+  # bin/vcheck (what MANIFEST's replay_cmd_template runs) is always the binary of the LAST build,
+  # i.e. built from the same /repo tree as the check that wrote the replay file
+  cp -f "$VERIF_DIR/bin/vcheck.new" "$VERIF_DIR/bin/vcheck.tmp.$$" && mv -f "$VERIF_DIR/bin/vcheck.tmp.$$" "$VERIF_DIR/bin/vcheck"
   mv -f "$VERIF_DIR/bin/vcheck.new" "$VERIF_DIR/bin/vcheck.$PROP"
 ) 9>"$VERIF_DIR/bin/.build.lock"
 rc=$?
